@@ -434,7 +434,10 @@ class Ctx:
             ev["known_findings_hit"] = [k for k, _ in self.known_hits]
         if self.notes:
             ev["notes"] = self.notes
-        p = os.path.join(VERIF, "evidence", "%s.json" % self.pid)
+        # evidence committed under /verif/evidence must come from /repo itself: a run against another tree
+        # (VERIF_REPO=<scratch worktree>, used for mutation drills and seeded changes) writes elsewhere
+        edir = os.path.join(VERIF, "evidence") if os.path.realpath(REPO) == "/repo" else os.path.join(WORK, "evidence-other-tree")
+        p = os.path.join(edir, "%s.json" % self.pid)
         os.makedirs(os.path.dirname(p), exist_ok=True)
         with open(p, "w") as f:
             json.dump(ev, f, indent=1, default=str)
